@@ -2399,3 +2399,59 @@ mod tests {
         assert_eq!(res, Err(OperationError::ResourceLimit));
     }
 }
+
+/// Runtime-verification access to the resolve / optimise steps as separate functions.
+#[cfg(feature = "verif-hooks")]
+pub mod verif_hooks {
+    use super::*;
+
+    /// Resolve a valid filter without applying any optimisation.
+    pub fn resolve_unoptimised(
+        f: &Filter<FilterValid>,
+        ev: &Identity,
+        idxmeta: Option<&IdxMeta>,
+    ) -> Option<Filter<FilterValidResolved>> {
+        match idxmeta {
+            Some(idx) => FilterResolved::resolve_idx(f.state.inner.clone(), ev, &idx.idxkeys),
+            None => FilterResolved::resolve_no_idx(f.state.inner.clone(), ev),
+        }
+        .map(|inner| Filter {
+            state: FilterValidResolved { inner },
+        })
+    }
+
+    /// The full optimiser, as applied when index metadata is present.
+    pub fn optimise(f: &Filter<FilterValidResolved>) -> Filter<FilterValidResolved> {
+        Filter {
+            state: FilterValidResolved {
+                inner: f.state.inner.optimise(),
+            },
+        }
+    }
+
+    /// The fast optimiser, as applied when no index metadata is present.
+    pub fn fast_optimise(f: &Filter<FilterValidResolved>) -> Filter<FilterValidResolved> {
+        Filter {
+            state: FilterValidResolved {
+                inner: f.state.inner.clone().fast_optimise(),
+            },
+        }
+    }
+
+    /// Build index metadata from plain (attribute, index type, slope) triples.
+    pub fn idxmeta_from(keys: &[(Attribute, IndexType, u8)]) -> IdxMeta {
+        IdxMeta::new(
+            keys.iter()
+                .map(|(a, i, s)| {
+                    (
+                        crate::be::IdxKey {
+                            attr: a.clone(),
+                            itype: *i,
+                        },
+                        *s,
+                    )
+                })
+                .collect(),
+        )
+    }
+}
